@@ -47,7 +47,7 @@ def parse_type(s):
         n = ident()
         if n in PRIMS:
             return (n,)
-        if n in ('Array', 'Set', 'Stream'):
+        if n in ('Array', 'Set', 'Stream', 'Interval'):
             expect('[')
             t = ty()
             expect(']')
@@ -97,7 +97,7 @@ def show_type(t):
     k = t[0]
     if k in PRIMS:
         return k
-    if k in ('Array', 'Set', 'Stream'):
+    if k in ('Array', 'Set', 'Stream', 'Interval'):
         return f'{k}[{show_type(t[1])}]'
     if k == 'Dict':
         return f'Dict[{show_type(t[1])},{show_type(t[2])}]'
@@ -902,6 +902,32 @@ def py_join(left_texts, right_texts):
     return _show_tt(gl + globs, [(k, dict(rl)[k]) for k in kl] + [(n, t) for n, t in rl if n not in kl] + vals, kl)
 
 
+def py_index(kind, axis, view, lt, rt, expr_types, am, use_len, name):
+    """API contract of left.annotate(name = use(right.index(exprs, all_matches=am))) (kind 'table') / mt.annotate_rows|cols (kind
+    'matrix'): the looked-up value is the right table's row-value struct, an ARRAY of it with all_matches -> result line or None"""
+    b = py_table(rt)
+    if b is None:
+        return None
+    _, rr, kr = _parse_tt(b)
+    ktypes = [dict(rr)[k] for k in kr]
+    interval = len(expr_types) == 1 and bool(ktypes) and ktypes[0] == f'Interval[{expr_types[0]}]'
+    if ktypes != list(expr_types) and not interval:
+        return None
+    if kind == 'matrix' and axis == 'cols' and interval and am:
+        return None                                  # documented as not implemented
+    root = 'Struct{' + ','.join(f'{n}:{t}' for n, t in rr if n not in kr) + '}'
+    if am:
+        root = f'Array[{root}]'
+    if use_len:
+        if not am:
+            return None
+        root = 'Int32'
+    if kind == 'table':
+        return py_table(list(lt) + [f'annotate {name}={root}'])
+    m = py_matrix_ops(M_RANGE, list(lt) + [f'annotate {axis} {name}={root}'])
+    return None if m is None else show_m(view, m)
+
+
 def py_table(texts):
     """the documented type contract of the Table API calls, on the op texts (oracle side, independent of the Lean model):
     -> (globals, row, key) with globals / row as ordered lists of (name, type text), or None when a call must be refused"""
@@ -1015,7 +1041,7 @@ class C36(Prop):
 'annotate_globals, select, drop, key_by, filter, order_by, rename, explode) from range_table; tunion (10%) = t0.union(t1, … '
             'unify=False/True) of 2-4 such pipelines (fields present / absent / of different numeric types / reordered / key field moved '
             'inside the row / clashing / keys differing), checked against the TableUnion rule that all children carry the result\'s row '
-'type and key; tjoin (4%) = l.join(r), most with deliberate name clashes between the two tables (row/row, global/global, global/row, key names) and globals on both sides; matrix (12%) = MatrixTable pipelines from range_matrix_table (annotate / select '
+'type and key; tjoin (4%) = l.join(r), most with deliberate name clashes between the two tables (row/row, global/global, global/row, key names) and globals on both sides; index (5%) = keyed lookups right[exprs] / right.index(exprs, all_matches=False|True) used in an annotation of a Table (by its key, by a non-key field, by an expression) or of the rows / cols of a MatrixTable, the right table keyed by a point, by an INTERVAL, or unsuitably (str key, no key), the value used as it is or under hl.len — checked against the engine rule for the emitted TableLeftJoinRightDistinct / TableIntervalJoin(product) / MatrixAnnotateRowsTable(product) / MatrixAnnotateColsTable node (root : right value struct, array of it when product); matrix (11%) = MatrixTable pipelines from range_matrix_table (annotate / select '
             'rows / cols / entries / globals, drop, key_cols_by incl. the empty key, key_rows_by, filter_*, union_cols) seen as a matrix '
             'table or through rows() / cols() / entries(), the IR-implied type being the engine\'s typing rules of the Matrix* nodes.  non-trivial = the front end '
             'accepted the program / produced a type; distinct by full case')
@@ -1225,6 +1251,8 @@ class C36(Prop):
             return hl.set([x])
         if ty == 'st':
             return hl.struct(u=x, v=hl.float64(x))
+        if ty == 'iv':
+            return hl.interval(x, x + 3)
         raise ValueError(ty)
 
     def run_pipeline(self, ops, texts):
@@ -1271,12 +1299,37 @@ class C36(Prop):
     def tt_line(g, r, k):
         return f'g={g._parsable_string()} r={r._parsable_string()} k=' + ','.join(k)
 
-    def ir_line(self, tir):
+    def lookup_rule_violation(self, root_ir):
+        """the engine's rule for the nodes a keyed lookup emits — TableLeftJoinRightDistinct: root : right.valueType;
+        TableIntervalJoin(product) / MatrixAnnotateRowsTable(product): array<right.valueType> when product; MatrixAnnotateColsTable:
+        right.valueType — against the type the front end attached to every projection of that root field.  -> text | None"""
+        from hail import ir
+        hl = self.hl
+        nodes = root_ir.base_search(lambda x: isinstance(x, (ir.TableLeftJoinRightDistinct, ir.TableIntervalJoin,
+                                                             ir.MatrixAnnotateRowsTable, ir.MatrixAnnotateColsTable)))
+        for j in nodes:
+            right = j.right if hasattr(j, 'right') else j.table
+            implied = right.typ.value_type
+            if isinstance(j, (ir.TableIntervalJoin, ir.MatrixAnnotateRowsTable)) and j.product:
+                implied = hl.tarray(implied)
+            for g in root_ir.base_search(lambda x: isinstance(x, ir.ProjectedTopLevelReference) and x.field == j.root):
+                if g._typ != implied:
+                    return (f'{type(j).__name__} {j.head_str()} inserts {j.root} : {implied} but the front end attached {g._typ} to '
+                            f'(GetField {j.root} …)')
+        return None
+
+    def ir_line(self, tir, deep=True):
         """the table type the emitted TableIR implies: its own deep typecheck, plus the engine's rule for TableUnion (TypeCheck.scala:
         every child has the row type and the key of child 0), which the Python `_compute_type` does not look at"""
         from hail import ir
+        if self.lookup_rule_violation(tir):
+            return 'ill-typed'
         try:
-            tir.compute_type(deep_typecheck=True)
+            # deep=False: a lookup through a NON-key expression re-keys the left table and uses the very same (Ref row) node object
+            # inside and outside the join, in scopes with different row types; Python's deep typecheck caches one type per node OBJECT
+            # and asserts on the second visit — an artefact of object sharing (the engine parses the text), so those programs are
+            # judged by the transcribed rules for the join nodes (lookup_rule_violation) and the node types the IR computes bottom-up
+            tir.compute_type(deep_typecheck=deep)
         except AssertionError as ex:
             return f'deep-typecheck-assertion {str(ex)[:120]}'
         for u in tir.base_search(lambda x: isinstance(x, ir.TableUnion)):
@@ -1389,6 +1442,13 @@ class C36(Prop):
             return dict(self.implied_mtype(mir.child), rk=list(mir.keys))
         if isinstance(mir, (M.MatrixFilterRows, M.MatrixFilterCols, M.MatrixFilterEntries)):
             return self.implied_mtype(mir.child)
+        if isinstance(mir, M.MatrixAnnotateRowsTable):
+            ch = self.implied_mtype(mir.child)
+            v = mir.table.typ.value_type
+            return dict(ch, r=hl.tstruct(**{**dict(ch['r'].items()), mir.root: hl.tarray(v) if mir.product else v}))
+        if isinstance(mir, M.MatrixAnnotateColsTable):
+            ch = self.implied_mtype(mir.child)
+            return dict(ch, c=hl.tstruct(**{**dict(ch['c'].items()), mir.root: mir.table.typ.value_type}))
         if isinstance(mir, M.MatrixRename):
             # MatrixRename.typ (MatrixIR.scala): every struct renamed field by field, keys renamed with the col / row maps
             ch = self.implied_mtype(mir.child)
@@ -1417,6 +1477,8 @@ class C36(Prop):
             fe = (f'g={x.globals.dtype._parsable_string()} c={x.col.dtype._parsable_string()} ck={",".join(x.col_key)} '
                   f'r={x.row.dtype._parsable_string()} rk={",".join(x.row_key)} e={x.entry.dtype._parsable_string()}')
             try:
+                if self.lookup_rule_violation(x._mir):
+                    raise IllTypedIR('lookup')
                 x._mir.compute_type(deep_typecheck=True)
                 t = self.implied_mtype(x._mir)
                 it = (f'g={t["g"]._parsable_string()} c={t["c"]._parsable_string()} ck={",".join(t["ck"])} '
@@ -1428,6 +1490,8 @@ class C36(Prop):
             return fe, it
         fe = self.tt_line(x.globals.dtype, x.row.dtype, list(x.key))
         try:
+            if self.lookup_rule_violation(x._tir):
+                raise IllTypedIR('lookup')
             x._tir.compute_type(deep_typecheck=True)
             t = self.implied_mtype(x._tir.child)
             if isinstance(x._tir, TI.MatrixRowsTable):
@@ -1463,6 +1527,59 @@ class C36(Prop):
             return ('rejected', type(ex).__name__, (lt, rt, pt))
         fe, it = self.m_lines(c['view'], x)
         return ('ok', fe, it, (lt, rt, pt))
+
+    def run_index(self, c):
+        """left.annotate(m = use(right.index(exprs, all_matches))) / mt.annotate_rows|cols(…) ->
+        ('ok', fe, it, (lt, rt, expr type texts), why-ill-typed | None) | ('rejected', why, (lt, rt, ets)) | ('assert', why, (lt, rt, ets))"""
+        hl = self.hl
+        lt, rt, ets = [], [], []
+        try:
+            right = self.run_pipeline(c['right'], rt)
+            if c['src'] == 'table':
+                left = self.run_pipeline(c['left'], lt)
+            else:
+                lt.append('range')
+                left = self.run_mpipeline(hl.utils.range_matrix_table(3, 4), c['left'], lt)
+        except AssertionError as ex:
+            return ('assert', f'AssertionError {str(ex)[:200]}', (lt, rt, ets))
+        except Exception as ex:
+            return ('rejected', 'pipeline:' + type(ex).__name__, (lt, rt, ets))
+        try:
+            by = c['by']
+            if c['src'] == 'table':
+                exprs = list(left.key.values()) if by == 'key' else [left[by[1]]] if by[0] == 'field' else [left[by[1]] + 1]
+            else:
+                exprs = list((left.row_key if c['src'] == 'rows' else left.col_key).values())
+            ets += [e.dtype._parsable_string() for e in exprs]
+            if not exprs:
+                return ('rejected', 'no-key', (lt, rt, ets))
+            e = right.index(*exprs, all_matches=bool(c['am'])) if (c['am'] or c.get('explicit')) else right[tuple(exprs) if len(exprs) > 1 else exprs[0]]
+            if c['len']:
+                e = hl.len(e)
+            if c['src'] == 'table':
+                res = left.annotate(m=e)
+            else:
+                res = left.annotate_rows(m=e) if c['src'] == 'rows' else left.annotate_cols(m=e)
+                if c['view'] != 'matrix':
+                    res = getattr(res, c['view'])()
+        except AssertionError as ex:
+            return ('assert', f'AssertionError {str(ex)[:200]}', (lt, rt, ets))
+        except Exception as ex:
+            return ('rejected', type(ex).__name__, (lt, rt, ets))
+        base = res._tir if hasattr(res, '_tir') else res._mir
+        why = self.lookup_rule_violation(base)
+        if c['src'] == 'table':
+            fe, it = self.tt_line(res.globals.dtype, res.row.dtype, list(res.key)), self.ir_line(res._tir, deep=(c['by'] == 'key'))
+        else:
+            fe, it = self.m_lines(c['view'], res)
+        return ('ok', fe, it, (lt, rt, ets), why)
+
+    def index_tail(self, c, texts):
+        lt, rt, ets = texts
+        head = f'{int(c["am"])} ||| {int(c["len"])} ||| {"&".join(ets)} ||| m'
+        if c['src'] == 'table':
+            return 'tindex', f' ||| {head} ||| ' + ' ; '.join(lt) + ' ||| ' + ' ; '.join(rt)
+        return 'mindex', f' ||| {c["src"]} ||| {head} ||| {c["view"]} ||| ' + ' ; '.join(lt) + ' ||| ' + ' ; '.join(rt)
 
     def run_combo(self, c):
         """union / join of pipelines -> ('ok', front-end line, ir line, [branch texts], note) | ('rejected', why, texts) | ('assert', …)"""
@@ -1723,6 +1840,40 @@ class C36(Prop):
         right = self.gen_table(rng, 'r', ['annotate', 'annotate', 'annotate_globals', 'filter', 'explode'])['ops']     # stays keyed by idx: no name collisions
         return {'kind': 'tjoin', 'left': left, 'right': right}
 
+    def gen_index(self, rng):
+        """a keyed lookup right[exprs] / right.index(exprs, all_matches=…) used in an annotation of a Table or of the rows / cols of a
+        MatrixTable; the right table is keyed by a point (idx, another int32 field), by an INTERVAL, or unsuitably (str key, no key)"""
+        src = rng.choice(['table', 'table', 'table', 'rows', 'rows', 'cols'])
+        right = [['annotate', [[f'r{i}', rng.choice(FIELD_TYPES), 'idx'] for i in range(rng.choice([1, 2, 3]))]]]
+        if rng.random() < 0.3:
+            right.append(['annotate_globals', [['rg', rng.choice(FIELD_TYPES), None]]])
+        rk = rng.choice(['interval', 'interval', 'interval', 'point', 'point', 'point2', 'str', 'none'])
+        if rk == 'interval':
+            right += [['annotate', [['iv', 'iv', 'idx']]], ['key_by', ['iv']]]
+            if rng.random() < 0.5:
+                right.append(['drop', ['idx']])
+        elif rk == 'point2':
+            right += [['annotate', [['rk0', 'i32', 'idx']]], ['key_by', ['rk0']]]
+        elif rk == 'str':
+            right += [['annotate', [['rk0', 'str', 'idx']]], ['key_by', ['rk0']]]
+        elif rk == 'none':
+            right.append(['key_by', []])
+        if rng.random() < 0.3:
+            right.append(['filter', 'r0'] if right[0][1][0][1] == 'i32' else ['annotate', [['r9', 'f64', 'r0' if right[0][1][0][1] == 'i32' else 'idx']]]
+                         if rk != 'interval' or ['drop', ['idx']] not in right else ['annotate_globals', [['rg2', 'i32', None]]])
+        am = rng.random() < 0.5
+        c = {'kind': 'index', 'src': src, 'right': right, 'am': am, 'len': am and rng.random() < 0.3, 'explicit': rng.random() < 0.5}
+        if src == 'table':
+            left = [['annotate', [['p0', 'i32', 'idx']] + [[f'f{i}', rng.choice(FIELD_TYPES), 'idx'] for i in range(rng.choice([0, 1, 2]))]]]
+            for _ in range(rng.choice([0, 0, 1, 2])):
+                left.append(rng.choice([['filter', 'p0'], ['annotate_globals', [['lg', rng.choice(FIELD_TYPES), None]]],
+                                        ['annotate', [[f'f{rng.randint(3, 5)}', rng.choice(FIELD_TYPES), 'p0']]], ['key_by', ['p0']], ['key_by', ['p0', 'idx']]]))
+            c.update(left=left, by=rng.choice(['key', 'key', ['field', 'p0'], ['field', 'idx'], ['expr', 'p0']]))
+        else:
+            c.update(left=self.gen_mpipe(rng, 'f', rng.choice([0, 1, 2, 3]))[0], by='key',
+                     view=rng.choice(['matrix', 'matrix', 'rows', 'cols', 'entries']))
+        return c
+
     def gen_join_right(self, rng, left_ops):
         """a right table (keyed by idx) whose field names deliberately clash with the left table's: row field vs row field, global vs
         global, global vs row field, row field vs global, and the name of a left key field"""
@@ -1774,7 +1925,10 @@ class C36(Prop):
             if r < 0.25:
                 yield self.gen_matrix(rng)
                 continue
-            r = (r - 0.25) / 0.75
+            if r < 0.30:
+                yield self.gen_index(rng)
+                continue
+            r = (r - 0.30) / 0.70
             if r < 0.45:
                 yield {'kind': 'expr', 'prog': g.any_expr(rng.choice([1, 2, 2, 3, 3, 4]))}
             elif r < 0.8:
@@ -1800,6 +1954,14 @@ class C36(Prop):
                 return [f'matrix ||| {c["view"]} ||| ' + ' ; '.join(lt)] * 2
             tail = f' ||| {c["view"]} ||| ' + ' ; '.join(lt) + ' ||| ' + ' ; '.join(rt) + ' ||| ' + (' ; '.join(pt) or 'range')
             return ['munion' + tail, 'munion-ir' + tail]
+        if c['kind'] == 'index':
+            r = self.run_index(c)
+            if r[0] == 'assert':
+                return ['echo ||| assert'] * 2
+            if r[0] == 'rejected' and (r[1].startswith('pipeline:') or r[1] == 'no-key'):
+                return ['echo ||| none'] * 2
+            k, tail = self.index_tail(c, r[3] if r[0] == 'ok' else r[2])
+            return [f'{k}-reported{tail}', f'{k}-ir{tail}']
         if c['kind'] in ('tunion', 'tjoin'):
             r = self.run_combo(c)
             if r[0] == 'assert':
@@ -1830,6 +1992,13 @@ class C36(Prop):
             return [f't={show_type(norm_type(tt))} ok={int(py_check(tt, c["value"]))}']
         if c['kind'] == 'matrix':
             r = self.run_matrix(c)
+            if r[0] == 'assert':
+                return ['assert'] * 2
+            if r[0] == 'rejected':
+                return ['none'] * 2
+            return [r[1], r[2]]
+        if c['kind'] == 'index':
+            r = self.run_index(c)
             if r[0] == 'assert':
                 return ['assert'] * 2
             if r[0] == 'rejected':
@@ -1905,6 +2074,27 @@ class C36(Prop):
                 return f'MatrixTable reports {fe} but the engine\'s typing rules give the emitted IR {it}: {call}'
             if want != fe:
                 return f'MatrixTable reports {fe} but the API contract gives {want} for {call}'
+            return None
+        if c['kind'] == 'index':
+            r = self.run_index(c)
+            if r[0] == 'assert':
+                return f'assertion inside the front end while building the lookup: {r[1]}'
+            if r[0] == 'rejected' and (r[1].startswith('pipeline:') or r[1] == 'no-key'):
+                return None
+            lt, rt, ets = r[3] if r[0] == 'ok' else r[2]
+            want = py_index('table' if c['src'] == 'table' else 'matrix', c['src'], c.get('view'), lt, rt, ets, bool(c['am']), bool(c['len']), 'm')
+            call = (' ; '.join(lt) + f' ANNOTATE{"" if c["src"] == "table" else "_" + c["src"].upper()} m = ' + ('len(' if c['len'] else '')
+                    + f'RIGHT.index({", ".join(ets)}, all_matches={bool(c["am"])})' + (')' if c['len'] else '') + ' WHERE RIGHT = ' + ' ; '.join(rt)
+                    + (f' VIEW {c["view"]}' if c['src'] != 'table' else ''))
+            if r[0] == 'rejected':
+                return None if want is None else f'the front end refuses ({r[1]}) a lookup the API contract types as {want}: {call}'
+            _, fe, it, _, why = r
+            if why:
+                return f'the front end reports {fe} but the emitted join node is ill-typed by the engine\'s rule: {why}: {call}'
+            if fe != it:
+                return f'the front end reports {fe} but the emitted IR computes {it}: {call}'
+            if want != fe:
+                return f'the front end reports {fe} but the API contract gives {want} for {call}'
             return None
         if c['kind'] in ('tunion', 'tjoin'):
             r = self.run_combo(c)
@@ -2026,6 +2216,13 @@ class C36(Prop):
                 tags.append('matrix-op:' + op[0] + ('_' + op[1] if op[0] in ('annotate', 'select', 'filter') else '')
                             + ('()' if op[0] in ('key_cols_by', 'key_rows_by') and not op[1] else ''))
             nontrivial = r[0] == 'ok'
+        elif kind == 'index':
+            r = self.run_index(c)
+            tags += ['index:' + r[0], 'index-src:' + c['src'], 'index-all_matches=%d' % int(c['am']), 'index-len=%d' % int(c['len']),
+                     'index-by:' + (c['by'] if isinstance(c['by'], str) else c['by'][0])]
+            tags.append('index-right-key:' + ('interval' if any(op[0] == 'annotate' and any(f[1] == 'iv' for f in op[1]) for op in c['right'])
+                                              and any(op[0] == 'key_by' for op in c['right']) else 'point'))
+            nontrivial = r[0] == 'ok'
         elif kind in ('tunion', 'tjoin'):
             r = self.run_combo(c)
             tags.append(f'{kind}:' + r[0])
@@ -2100,6 +2297,20 @@ class C36(Prop):
             return cur
         if c['kind'] == 'tjoin':
             return c
+        if c['kind'] == 'index':
+            cur = c
+            changed = True
+            while changed:
+                changed = False
+                for fld in ('left', 'right'):
+                    for i in range(len(cur[fld])):
+                        cand = dict(cur, **{fld: cur[fld][:i] + cur[fld][i + 1:]})
+                        if fails(cand):
+                            cur, changed = cand, True
+                            break
+                    if changed:
+                        break
+            return cur
         if c['kind'] == 'matrix':
             cur = c
             changed = True
